@@ -493,7 +493,7 @@ func init() {
 		ID: "C10", Level: "exploration",
 		Gen: func(seed uint64, tier string, idx int) *Scenario { return genC10(mixSeed(seed, uint64(idx))) },
 		Run: runC10,
-		QuickRuns: 320, ThoroughS: 1500,
+		QuickRuns: 240, ThoroughS: 1500,
 		Rule: "one run = one document (generated mini specification with 0..4 rule-breaking edits, or a small repository fixture) validated 2..6 times: under different seeded map iteration orders (= Go's per-process randomisation, made replayable), " +
 			"from JSON or YAML-converted bytes, with continue-on-errors false/true set per validator or through the package-level setter, after other validations and after a reset of all process-wide state; " +
 			"non-trivial = at least two whole-spec validations; distinct = distinct (document, option/serialisation sequence)",
